@@ -366,6 +366,18 @@ static void write_cfg(const char *hex) {
     free(s); strcpy(verif_cfgpath, p);
 }
 
+/* an application's own pthread_atfork() child handler that replaces the forked child's image with execve() (async-signal-safe, so allowed there);
+   here the recorder stands in for the real exec and returns, so the script goes on in the child */
+static void atfork_child_exec(void) {
+    static char *av[] = { "from-atfork-child-handler", NULL };
+    static char pth[] = "/nonexistent/atfork-child";
+    memset(&R, 0, sizeof R); R.is_execve = 1; R.ret = -1; R.err = ENOENT; R.path_ptr = pth; R.path_copy = strdup(pth); R.argv_ptr = av; R.argv_copy = vec_copy(av); R.envp_ptr = environ; R.envp_copy = vec_copy(environ);
+    R.environ_ptr = environ; R.environ_copy = vec_copy(environ);
+    int sv_lean = lean, sv_snap = snapshot_at_entry, sv_dig = want_digest; lean = 1; snapshot_at_entry = 0; want_digest = 0;   /* the recorder only counts and compares for this call */
+    int before = R.calls; int r = execve(pth, av, environ);
+    lean = sv_lean; snapshot_at_entry = sv_snap; want_digest = sv_dig;
+    out("{\"atfork_child_call\":1,\"ret\":%d,\"reached_real_exec\":%d}\n", r, R.calls - before);
+}
 static long onthread_kb = 0;
 struct thr_call { char **tok; int nt; };
 static void *thr_call_main(void *a) { struct thr_call *tc = a; do_call(tc->tok, tc->nt); return NULL; }
@@ -487,6 +499,7 @@ int main(int argc, char **argv) {
             if (c == 0) prctl(PR_SET_NAME, old, 0, 0, 0);
             if (c > 0) { int st = 0; while (waitpid(c, &st, 0) < 0 && errno == EINTR) {} _exit(WIFEXITED(st) ? WEXITSTATUS(st) : 128 + WTERMSIG(st)); }
             free(nm); }
+        else if (!strcmp(tok[0], "atforkexec")) { if (pthread_atfork(NULL, NULL, atfork_child_exec)) { perror("pthread_atfork"); return 3; } }
         else if (!strcmp(tok[0], "prname")) { char *p = mkstr(tok[1]); prctl(PR_SET_NAME, p, 0, 0, 0); free(p); }
         else if (!strcmp(tok[0], "echo")) out("{\"echo\":\"%s\"}\n", nt > 1 ? tok[1] : "");
         else { fprintf(stderr, "h_exec: unknown command %s\n", tok[0]); return 3; }
